@@ -201,3 +201,22 @@ package watutil
 //@   mode int
 //@   ensures[log2] (align == 1 ==> result == 0) && (align == 2 ==> result == 1) && (align == 4 ==> result == 2) && (align == 8 ==> result == 3) && (align == 16 ==> result == 4)
 //@   property C04
+
+// buildStartSection: the start section holds the function index of the function (start $f) names: the
+// number of function imports in front of the first import with that name, else the number of function
+// imports plus the position of the first definition with that name; no start field, no start section.
+//@ func (*wat2wasmWorker).buildStartSection
+//@   mode int
+//@   requires p != nil && p.mWasm != nil && imports_ok(p.mWat) && len(p.mWat.Funcs) < (1 << 31)
+//@   requires forall i int :: 0 <= i && i < len(p.mWat.Funcs) ==> p.mWat.Funcs[i] != nil
+//@   loop 0 invariant int(*startIdx) == nimp(p.mWat, token.FUNC, rangeindex+1) && 0 <= int(*startIdx) && int(*startIdx) <= rangeindex+1
+//@   loop 0 invariant forall i int :: 0 <= i && i <= rangeindex ==> !(p.mWat.Imports[i].ObjKind == token.FUNC && p.mWat.Imports[i].FuncName == p.mWat.Start)
+//@   loop 1 invariant int(*startIdx) == nimp(p.mWat, token.FUNC, len(p.mWat.Imports)) + rangeindex+1 && 0 <= rangeindex+1
+//@   loop 1 invariant forall i int :: 0 <= i && i < len(p.mWat.Imports) ==> !(p.mWat.Imports[i].ObjKind == token.FUNC && p.mWat.Imports[i].FuncName == p.mWat.Start)
+//@   loop 1 invariant forall i int :: 0 <= i && i <= rangeindex ==> p.mWat.Funcs[i].Name != p.mWat.Start
+//@   ensures[none]    p.mWat.Start == "" ==> p.mWasm.StartSection == nil
+//@   ensures[some]    p.mWat.Start != "" ==> p.mWasm.StartSection != nil
+//@   ensures[import]  p.mWat.Start != "" ==> (forall i int :: 0 <= i && i < len(p.mWat.Imports) && p.mWat.Imports[i].ObjKind == token.FUNC && p.mWat.Imports[i].FuncName == p.mWat.Start && (forall j int :: 0 <= j && j < i ==> !(p.mWat.Imports[j].ObjKind == token.FUNC && p.mWat.Imports[j].FuncName == p.mWat.Start)) ==> int(*p.mWasm.StartSection) == nimp(p.mWat, token.FUNC, i))
+//@   ensures[defined] p.mWat.Start != "" && (forall i int :: 0 <= i && i < len(p.mWat.Imports) ==> !(p.mWat.Imports[i].ObjKind == token.FUNC && p.mWat.Imports[i].FuncName == p.mWat.Start)) ==> (forall f int :: 0 <= f && f < len(p.mWat.Funcs) && p.mWat.Funcs[f].Name == p.mWat.Start && (forall g int :: 0 <= g && g < f ==> p.mWat.Funcs[g].Name != p.mWat.Start) ==> int(*p.mWasm.StartSection) == nimp(p.mWat, token.FUNC, len(p.mWat.Imports)) + f)
+//@   noframe
+//@   property C04
